@@ -330,6 +330,11 @@ fn check_shape(ctx: &Ctx, shape: (usize, usize, usize), special: Option<(usize, 
     }
     if special.is_none() {
         ctx.distinct(hash_str(&case.to_string()));
+        if c == 2 && o == 3 && d == 2 {
+            ctx.sample_tagged("coded shape through all entry points", || json!({"input": case.clone(), "cell(1,2,0)": coded(1, 2, 0)}));
+        }
+    } else {
+        ctx.sample_tagged("special value in one cell", || case.clone());
     }
 }
 
@@ -391,8 +396,6 @@ pub fn run(ctx: &Ctx) {
     jobs.par_iter().for_each(|(s, pos, v)| check_shape(ctx, *s, Some((*pos, *v))));
     error_paths(ctx);
     std::fs::remove_dir_all(scratch()).ok();
-    ctx.sample(json!({"shape": [2, 3, 2], "cell(1,2,0)": coded(1, 2, 0), "entry_points": ["save_csv<f64|f32|i32|usize>", "save_csv_tensor", "save_arrow<f64|f32|i32>", "save_parquet<f64|f32|i32>", "save_parquet_tensor<f32|f64> (labels observation, chain)"]}));
-    ctx.sample(json!({"shape": [1, 3, 2], "special": {"pos": 4, "value": "NaN"}}));
     ctx.assume("read-only-file error path is not exercised (the harness runs as root, for whom the file is writable); a save that returns Err is counted, not a violation");
     if ctx.outcome_count("save_parquet_tensor<f32>:roundtrip-ok") == 0 || ctx.outcome_count("save_csv<f64>:roundtrip-ok") == 0 {
         ctx.machinery_error("vacuity guard: no successful round trip observed");
